@@ -72,6 +72,10 @@ func generate(rng *rand.Rand, prop, tier string) *Scenario {
 	}
 	c.CallLatencyMs = oneOf(rng, 0, 0, 50, 500, 2000)
 	c.PatchPodIPs = rng.IntN(4) == 0
+	// address recycling by the cloud is part of C01's and C06's fault space only; elsewhere it
+	// would merely echo the known finding recorded for those two
+	recycle := rng.IntN(3) == 0
+	c.Recycle = recycle && (prop == "C01" || prop == "C06")
 	// pre-attached interfaces
 	npre := rng.IntN(c.MaxENI + 1)
 	for i := 0; i < npre; i++ {
@@ -109,19 +113,19 @@ func generate(rng *rand.Rand, prop, tier string) *Scenario {
 	if thorough {
 		nops = 8 + rng.IntN(50)
 	}
-	kinds := []string{"add", "del", "get", "delpod", "recreate", "exit", "sleep", "drift", "gc", "barrier", "drift-eni"}
-	weights := []int{40, 20, 5, 6, 4, 2, 8, 3, 3, 4, 1}
+	kinds := []string{"add", "del", "get", "delpod", "recreate", "exit", "sleep", "drift", "gc", "barrier", "drift-eni", "move"}
+	weights := []int{40, 20, 5, 6, 4, 2, 8, 3, 3, 4, 1, 1}
 	switch prop {
 	case "C07":
-		weights = []int{45, 20, 2, 4, 3, 1, 8, 0, 1, 4, 0}
+		weights = []int{45, 20, 2, 4, 3, 1, 8, 0, 1, 4, 0, 1}
 	case "C09":
-		weights = []int{35, 12, 2, 16, 6, 5, 10, 2, 8, 4, 4}
+		weights = []int{35, 12, 2, 14, 6, 5, 10, 2, 8, 4, 4, 6}
 	case "C06":
-		weights = []int{45, 22, 2, 4, 3, 1, 14, 2, 1, 4, 0}
+		weights = []int{45, 22, 2, 4, 3, 1, 14, 2, 1, 4, 0, 1}
 	case "C04":
-		weights = []int{40, 28, 10, 4, 4, 1, 5, 1, 2, 4, 0}
+		weights = []int{40, 28, 10, 4, 4, 1, 5, 1, 2, 4, 0, 1}
 	case "C05":
-		weights = []int{40, 20, 5, 6, 4, 2, 8, 0, 3, 4, 0}
+		weights = []int{40, 20, 5, 6, 4, 2, 8, 0, 3, 4, 0, 1}
 	}
 	for i := 0; i < nops; i++ {
 		op := Op{Kind: pickW(rng, kinds, weights), Pod: rng.IntN(npods)}
@@ -162,6 +166,7 @@ func generate(rng *rand.Rand, prop, tier string) *Scenario {
 	}
 	switch prop {
 	case "C05":
+		c.Legacy = c.Stack == "v4" && !c.Trunk && rng.IntN(4) == 0
 		// crash points are enumerated over this run; keep drift out (restart drops records of
 		// interfaces that are gone, which is a different statement)
 		sc.SettleS = oneOf(rng, 0, 30, 400)
